@@ -231,6 +231,7 @@ type c06Ex struct {
 	done   chan struct{}
 	res    string
 	sc     bool // started with a cancelled ctx
+	booked bool // a query was booked under its mark
 }
 
 func (x *c06Ex) returned() bool {
@@ -328,22 +329,41 @@ func c06Replay(f map[string]string, evs []string, scale int) (string, bool) {
 			}
 			return false
 		}
-		if m >= 0 && m < len(exs) && !parked(m) {
-			return m
-		}
-		cand := -1
+		// exchanges that may legitimately put a query on the wire now
+		var cands []int
 		for _, x := range exs {
-			if x.sc && !parked(x.mark) {
-				if cand >= 0 {
-					return m
-				}
-				cand = x.mark
+			if parked(x.mark) {
+				continue
+			}
+			if !x.returned() || (x.sc && !x.booked) {
+				cands = append(cands, x.mark)
 			}
 		}
-		if cand >= 0 {
-			return cand
+		pick := m
+		found := false
+		for _, c := range cands {
+			if c == m {
+				found = true
+			}
 		}
-		return m
+		if !found {
+			// at quiescence an earlier cancelled-at-start exchange has either written already or
+			// never will: the latest one is the writer
+			for i := len(cands) - 1; i >= 0; i-- {
+				if exs[cands[i]].sc && exs[cands[i]].returned() {
+					pick = cands[i]
+					found = true
+					break
+				}
+			}
+			if !found && len(cands) == 1 {
+				pick = cands[0]
+			}
+		}
+		if pick >= 0 && pick < len(exs) {
+			exs[pick].booked = true
+		}
+		return pick
 	}
 
 	quiescent := func() bool {
@@ -534,11 +554,14 @@ func c06Replay(f map[string]string, evs []string, scale int) (string, bool) {
 		default:
 			return "HARNESS-ERROR bad event " + ev, false
 		}
-		if stuck == "" && !waitQ(4*time.Second) {
-			stuck = fmt.Sprintf("STUCK ev=%d(%s)", i, ev)
-		}
+		// not quiescent in time: remember the first such event but play the rest of the history
+		// (with short waits), so that the oracle sees what the callers got in the end
+		limit := 4 * time.Second
 		if stuck != "" {
-			break
+			limit = 250 * time.Millisecond
+		}
+		if !waitQ(limit) && stuck == "" {
+			stuck = fmt.Sprintf("STUCK ev=%d(%s)", i, ev)
 		}
 		if !waiting && time.Since(t0) > budget {
 			slow = true
